@@ -45,6 +45,17 @@ def run_batch(ctx, n, with_model=True):
         import unicodedata
         envs = [{"u": i, "x": operand} for i in range(6)] + [{"u": 1, "x": unicodedata.normalize("NFC", operand)}]
         cases.append((p, gen.render(p), envs))
+    # corpus: identifiers that are names of the host language / of the library's own parameters, in every role
+    L = lambda t: gen.lit_str(t, quote='"')
+    for name in gen.HOST_NAMES:
+        ab = ("ret", [(L("a"), "1"), (L("b"), "1"), (L("c"), "2")])
+        progs = [gen.Program("e", None, [name], ab, {name: "any"}),
+                 gen.Program("e", L("s"), ["uid"], ("if", ("cmp", ("id", name), ">", ("lit", gen.lit_int(3))), ab, ("else", ("ret", [(L("n"), "1")]))),
+                             {"uid": "any", name: "int"}),
+                 gen.Program(name, None, ["uid"], ab, {"uid": "any"})]
+        for p in progs:
+            envs = [{f: (rng.choice([0, 5, 7]) if t == "int" else rng.choice(["u1", 0, 9, "", None])) for f, t in p.fields.items()} for _ in range(3)]
+            cases.append((p, gen.render(p), envs))
     models = [None] * len(cases)
     if with_model and ctx.driver_ok:
         try:
